@@ -56,6 +56,14 @@ Proof.
   - intros ->. rewrite H2. destruct (cut_time (rs_cut rs)); lia.
 Qed.
 
+Lemma lease_ceiling_code : forall st i r rs d, plain_miss st i r rs ->
+  st_dc (process_delegation code_fx st i r) (r_zone r) = Some d -> st_dc st (r_zone r) <> Some d ->
+  d_exp d <= r_obs r + max_ttl.
+Proof.
+  intros st i r rs d Hp Hd Hne. destruct (lease_bounds code_fx st i r rs d Hp Hd Hne) as (_ & _ & _ & _ & _ & H).
+  apply H. reflexivity.
+Qed.
+
 (* ---------------------------------------------- follows_parent_after_lease *)
 
 Lemma dead_after_generic : forall (B : lrec -> Z) (st : state) l now,
@@ -136,7 +144,9 @@ Proof.
   - unfold dc_get, dc_get_res. rewrite E. reflexivity.
 Qed.
 
-(* ------------------------------------------------------- refutation (F3) *)
+(* ---------------- regression examples: the pre-fix step function (fx = false), finding
+   lease-12h-ceiling-answer-cut, fixed by c959b0e.  They say why the clamp in processDelegation
+   must stay: without it the full-strength theorems above are false. *)
 
 Definition h : Z := 3600 * 1000000000.
 Definition wz : zone := [1%N].
@@ -148,7 +158,7 @@ Definition witness_acts (store_at : Z) : list act :=
     ARefer 0 (mk_ref wz 1 true 172800 None true 0 false 0 [] false true true store_at);
     AStore 0 7 (24 * h) 0 ].
 
-Lemma witness_run :
+Example witness_run :
   let st := run false (witness_acts 0) st_init in
   exists e l d,
     st_ans st = [e] /\ ae_lin e = [l] /\ st_dc st wz = Some d /\ d_lin d = [l] /\
@@ -161,13 +171,13 @@ Proof. cbv zeta. do 3 eexists. repeat (split; [vm_compute; reflexivity|]). vm_co
 
 (* the ceiling is anchored at the store instant, not at the observation: one second of
    validation latency is one more second of lease *)
-Lemma witness_ceiling_anchor :
+Example witness_ceiling_anchor :
   let st := run false (witness_acts 1000000000) st_init in
   exists d l, st_dc st wz = Some d /\ d_lin d = [l] /\ l_obs l = 0 /\ d_exp d = 12 * h + 1000000000.
 Proof. cbv zeta. do 2 eexists. repeat (split; [vm_compute; reflexivity|]). vm_compute; reflexivity. Qed.
 
 (* the same history under the repaired step function *)
-Lemma witness_fixed :
+Example witness_fixed :
   let st := run true (witness_acts 1000000000) st_init in
   exists e d, st_ans st = [e] /\ st_dc st wz = Some d /\ d_exp d = 12 * h /\ ae_end e = 12 * h.
 Proof. cbv zeta. do 2 eexists. repeat (split; [vm_compute; reflexivity|]). vm_compute; reflexivity. Qed.
@@ -183,7 +193,7 @@ Definition ex_acts : list act :=
     AStore 0 6 1 41 ].                                                                         (* 1 ns answer: floor 5 s *)
 
 Example ex_inherits :
-  let st := run false ex_acts st_init in
+  let st := run code_fx ex_acts st_init in
   option_map d_exp (st_dc st [1%N]) = Some 3000000010 /\
   option_map d_exp (st_dc st [1;2]%N) = Some 3000000010 /\
   map ae_end (st_ans st) = [3000000010; 3000000010] /\
@@ -191,7 +201,7 @@ Example ex_inherits :
 Proof. vm_compute. repeat split; reflexivity. Qed.
 
 Example ex_plain_miss :
-  let st := step false (ASeed 0 0 [1;2]%N false 0) st_init in
+  let st := step code_fx (ASeed 0 0 [1;2]%N false 0) st_init in
   exists rs, plain_miss st 0 (mk_ref [1%N] 1 true 300 (Some 60) true 5 false 6 [] false true true 7) rs.
 Proof. cbv zeta. eexists. repeat (split; [vm_compute; reflexivity|]). vm_compute; reflexivity. Qed.
 
@@ -208,9 +218,9 @@ Definition ex_child_noise : list act :=
     AStore 3 4 (86400 * 1000000000) 300 ].
 
 Example ex_not_extended :
-  let st0 := run false [ASeed 0 0 [1;9]%N false 0;
+  let st0 := run code_fx [ASeed 0 0 [1;9]%N false 0;
                         ARefer 0 (mk_ref [1%N] 1 true 4 None true 0 false 0 [] false true true 0)] st_init in
-  let st := run false ex_child_noise st0 in
+  let st := run code_fx ex_child_noise st0 in
   forallb (fun a => negb (is_referral_for [1%N] a)) (tl (tl ex_child_noise)) = true /\
   option_map d_exp (st_dc st0 [1%N]) = Some 4000000000 /\
   option_map d_exp (st_dc st [1%N]) = Some 4000000000 /\
